@@ -29,8 +29,8 @@ CHECKS = {
     'C04': dict(
         engine='E1 bounded-exhaustive enumeration of redirection sequences on the real binary',
         technique='bounded-exhaustive enumeration of all redirection sequences x commands x spellings x target states, executed by the real binary and compared with a reference descriptor-table model (open file descriptions, left-to-right application)',
-        text='All sequences of up to 2 (thorough 3) redirections over {>f >>f 1>f 2>f 2>>f 2>&1 1>&2 >&2 <g <<<w} with two target files, spaced and attached, on an external program alone and as first/middle/last stage of a three-stage pipeline on the builtins alias (stdout), unalias (stderr) and read (stdin), and on an external program whose output is captured by "$(...)" (the capture pipe takes the place of stdout), with targets absent / present / unopenable, each followed by a command that must be unaffected, are executed by the real binary (1109 / ~11 k cases); file contents, bytes on the line stdout/stderr, stdin seen, status and not-started-on-unopenable must match the reference model.',
-        note='Descriptors 1 and 2, two files; redirection combined with output capture not covered; nine builtin classes are open known findings (builtins resolve redirections by look-ahead).',
+        text='All sequences of up to 2 (thorough 3) redirections over {>f >>f 1>f 2>f 2>>f 2>&1 1>&2 >&2 <g <<<w} with two target files, spaced, attached and spaced with the target written as a quoted word, on an external program alone and as first/middle/last stage of a three-stage pipeline on the builtins alias (stdout), unalias (stderr) and read (stdin), and on an external program whose output is captured by "$(...)" (the capture pipe takes the place of stdout), with targets absent / present / unopenable, each followed by a command that must be unaffected, are executed by the real binary (1109 / ~11 k cases); file contents, bytes on the line stdout/stderr, stdin seen, status and not-started-on-unopenable must match the reference model.',
+        note='Descriptors 1 and 2, two files; target states absent / present / unopenable / only the first target unopenable; at most one stdin redirection per command.',
         ref='DESIGN.md §4 C04'),
     'C05': dict(
         engine='E1 bounded-exhaustive input sweep (in-process) + real binary',
@@ -53,7 +53,7 @@ CHECKS = {
     'C09': dict(
         engine='E2 explicit-state BFS over the real shell (reference-model state dedup), real binary',
         technique='explicit-state model checking: BFS over the finite state space of variables / exported flags / cwd / previous dir with every operation executed on the real binary from every distinct state (thorough: to the fixpoint), compared with a reference model after every step',
-        text='22 operations (assignment with blank / empty / = and : values, export, unset, prefix assignment, read into one and two names, cd absolute / relative / .. / through a symlink / no argument / - / missing / non-directory) over names A and B and a generated directory tree are executed by the real binary from every distinct reference-model state: quick to depth 4, thorough to the fixpoint (588 states, 12.7 k transitions). After each operation a helper started by the shell records the "$A|$B|$PWD" expansion, its environment, its cwd; a relative redirection must land in the model cwd, a failed cd must return non-zero and change nothing, a prefix assignment must be seen by that command only. Every probe ends with `cd -` and checks where it leads, so that the previous directory the shell remembers is observed after every operation.',
+        text='27 operations (assignment with blank / empty / = and : values and values holding braces / substitutions, export, unset, prefix assignment on a command and on the first stage of a pipeline, read into one, two and three names with enough / too few words and runs of blanks, cd absolute / relative / .. / through a symlink / no argument / - / missing / non-directory) over names A and B and a generated directory tree are executed by the real binary from every distinct reference-model state: quick to depth 4, thorough to the fixpoint (588 states, 12.7 k transitions). After each operation a helper started by the shell records the "$A|$B|$PWD" expansion, its environment, its cwd; a relative redirection must land in the model cwd, a failed cd must return non-zero and change nothing, a prefix assignment must be seen by that command only. Every probe ends with `cd -` and checks where it leads, so that the previous directory the shell remembers is observed after every operation.',
         note='Names, values and tree are the bound; states are reached by replaying their shortest history; state abstraction = the reference-model state.',
         ref='DESIGN.md §4 C09'),
     'C10': dict(
@@ -64,9 +64,9 @@ CHECKS = {
         ref='DESIGN.md §4 C10'),
     'C11': dict(
         engine='E1 bounded-exhaustive enumeration of output texts x spellings x placements x contexts on the real binary',
-        technique='bounded-exhaustive enumeration of all output texts of up to 2 atoms over a 12-atom alphabet x both spellings x placements x quoting contexts, executed by the real binary with a recording helper (exactly-once check) against the literal-splice reference',
-        text='All output texts of up to 2 atoms over {x blank $1 ${x} $A backslash newline * {a,b} ) ( .+} plus trailing-newline variants are produced by a recording helper and substituted with $(...) and backquotes as whole word / at word start / middle / end, unquoted and double-quoted, as assignment value and as here-string operand; special inner commands: pipeline, builtin, function, failing, not found, syntactically invalid, nested, two substitutions in one word and line; the substituted word next to other words of every quoting kind (8 kinds before x 6 after: plain, single-quoted, double-quoted, escaped dollar, variable, another substitution), which must keep their value and position. The real binary must pass exactly head + output-without-trailing-newlines + tail (byte-exact, one argument in double quotes), run the inner command exactly once, show variables to it, give a diagnostic and an empty replacement for unusable inner commands, never hang, create no file.',
-        note='Atoms and lengths are the bound; unquoted results compared only for outputs without leading/trailing blanks.',
+        technique='bounded-exhaustive enumeration of all output texts of up to 2 atoms over a 14-atom alphabet x both spellings x placements x quoting contexts, executed by the real binary with a recording helper (exactly-once check) against the literal-splice reference',
+        text='All output texts of up to 2 atoms over {x blank $1 ${x} $A backslash newline * {a,b} ) ( .+ `cmd` $(cmd)} (a substitution in the output must not run) plus trailing-newline variants are produced by a recording helper and substituted with $(...) and backquotes as whole word / at word start / middle / end, unquoted and double-quoted, as assignment value and as here-string operand; special inner commands: pipeline, builtin, function, failing, not found, syntactically invalid, nested, two substitutions in one word and line; the substituted word next to other words of every quoting kind (8 kinds before x 6 after: plain, single-quoted, double-quoted, escaped dollar, variable, another substitution), which must keep their value and position. The real binary must pass exactly head + output-without-trailing-newlines + tail (byte-exact, one argument in double quotes), run the inner command exactly once, show variables to it, give a diagnostic and an empty replacement for unusable inner commands, never hang, create no file.',
+        note='Atoms and lengths are the bound; unquoted results compared only for outputs without leading/trailing blanks; two open known findings (a builtin as the whole inner command acts on the expanding shell: cd, exit).',
         ref='DESIGN.md §4 C11'),
     'C12': dict(
         engine='E1 bounded-exhaustive input sweep (in-process plan) + real binary',
@@ -89,8 +89,8 @@ CHECKS = {
     'C15': dict(
         engine='E1 bounded-exhaustive script generation on the real binary',
         technique='bounded-exhaustive enumeration of argument lists x reference forms x frames, function names x headers x arities, source chains, and all bodies of status-relevant lines up to a length, executed by the real binary against a reference model of frames, persistence and status propagation',
-        text='All argument lists of length 0..2 (thorough 0..3) over {x, "a b", $, \'q\', empty} x 11 reference forms ($0 $1 ${2} $3 $9 $@ "$@", glued and quoted forms) in a script frame and in a function frame; function names f, g-h, _k x both header spellings x arities 0..2 defined in the script or in a sourced file; source chains of depth 1..3 defining a variable, an alias, a function and changing directory; all bodies of up to 3 (4) lines over {succeeding command, failing command, exit 5, set -e, function call with status 4, source with status 2} at top level and inside an if body followed by a further command. The real binary must show the reference frames, persistence, record sequence and process exit status. Argument values also a;b a|b >f a& backslash #c (single arguments; thorough all lists); the same references inside the condition line of if / while.',
-        note='Unquoted references may be split at blanks; functions are called after their definition; two open known findings (values containing a quote character or a dollar sign are re-parsed after substitution).',
+        text='All argument lists of length 0..2 (thorough 0..3) over {x, "a b", $, \'q\', empty; single arguments also a;b a|b >f a& backslash #c dquote backquote $(cmd)} x 11 reference forms ($0 $1 ${2} $3 $9 $@ "$@", glued and quoted forms) in a script frame and in a function frame; function names f, g-h, _k x both header spellings x arities 0..2 defined in the script or in a sourced file; source chains of depth 1..3 defining a variable, an alias, a function and changing directory; all bodies of up to 3 (4) lines over {succeeding command, failing command, exit 5, set -e, function call with status 4, source with status 2} at top level and inside an if body followed by a further command. The real binary must show the reference frames, persistence, record sequence and process exit status. Argument values also a;b a|b >f a& backslash #c (single arguments; thorough all lists); the same references inside the condition line of if / while.',
+        note='Unquoted references may be split at blanks; functions are called after their definition.',
         ref='DESIGN.md §4 C15'),
     'C16': dict(
         engine='E1 bounded-exhaustive input sweep (in-process, differential between entry paths) + real binary through four entry points',
